@@ -821,7 +821,7 @@ def run(rep, tier):
     rep.rule('R12b', 'first-in-path labels for every visited node including the root', floor=1)
     rep.rule('R12g', 'first-in-path label values', floor=1)
     rep.rule('R02h', 'relaxation contract of the searches (lex_dijkstra among them)', floor=4)
-    rep.rule('R12c', 'update sites of lex_dijkstra store label, distance and predecessor consistently', floor=3)
+    rep.rule('R12c', 'update sites of lex_dijkstra store label, distance and predecessor consistently', floor=2)
     rep.rule('R12d', 'label extension by one edge', floor=2)
     rep.rule('R12e', 'tree nodes and parent links follow the predecessor map', floor=2)
     tus = [env.witness_tu()]
